@@ -18,5 +18,5 @@ def consts : Consts where
 /-- row pairs whose dot product `is_orthogonal` tests -/
 def orthoPairs : List (Nat × Nat) := [(0, 1), (0, 2), (1, 2)]
 /-- `repeat_box` hands its `amount` argument on to `repeat_box_coord` -/
-def repeatBoxPassesAmount : Bool := false
+def repeatBoxPassesAmount : Bool := true
 end BiotiteModel.Gen.C15
